@@ -77,6 +77,8 @@ def replay_chunk(args):
     proj = PROJ.get(pid)
     for n, beh in chunk:
         prog, inc = beh["prog"], beh["inc"]
+        # consecutive runs in one process use different strip patterns (anything cached between runs shows)
+        agg.PREFIX = ["_p_", "_q_", "arg_"][n % 3]
         src, meta = agg.concretize(prog, cmds, seed * 1000003 + n)
         settings = agg.make_settings(inc, pats)
         status, text, _, err = agg.run_real(src, settings)
@@ -124,6 +126,26 @@ def replay_c08_chunk(args):
         except Exception as e:
             out.append((n, case, "readable page", t1, "projector failed: %r" % (e,)))
             continue
+        # variant outside the generator's domain (a command between a declaration and its definition): only the
+        # pair comparison applies - the doccomment-stemming entries must render as under the defaults
+        gap = None
+        lines = src.split("\n")
+        decl = [k for k, l in enumerate(lines) if l.strip().lower().startswith(("cpp_member(", "cpp_constructor(", "ct_add_test(", "ct_add_section("))
+                and k + 1 < len(lines) and lines[k + 1].strip().lower().startswith(("function(", "macro("))]
+        if decl and n % 2 == 0:
+            k = decl[(n // 2) % len(decl)]
+            filler = ["cpp_attr(C gap_attr)", "option(GAP_OPT \"h\")", "message(gap)", "add_test(NAME gap_t COMMAND p)"][(n // 4) % 4]
+            src2 = "\n".join(lines[:k + 1] + [filler] + lines[k + 1:])
+            g1, gt1, _, _ = agg.run_real(src2, agg.make_settings(inc, pats))
+            g0, gt0, _, _ = agg.run_real(src2, agg.make_settings(allon, pats))
+            if g1 == "ok" and g0 == "ok":
+                try:
+                    gd1 = agg.doc_part(agg.page_views(gt1)[1], meta)
+                    gd0 = agg.doc_part(agg.page_views(gt0)[1], meta)
+                    if gd1 != gd0 and not case["features"]["doc_class_flag_off"]:
+                        gap = (dict(case, source=src2), gd0, gd1)
+                except Exception:
+                    pass
         ideal = agg.doc_part(agg.ideal_views(beh["idealOn"], meta), meta, structural=True)
         imp = agg.doc_part(agg.ideal_views(beh["impl"], meta), meta, structural=True)
         obs = agg.doc_part(v1, meta, structural=True)
@@ -136,6 +158,8 @@ def replay_c08_chunk(args):
             out.append((n, case, d0, d1, "rendering of a doccomment-stemming entry differs from its rendering under default settings"))
         elif shown:
             out.append((n, case, [], shown, "an undocumented K-command is still shown although include_undocumented_K is off"))
+        elif gap:
+            out.append((n, gap[0], gap[1], gap[2], "with a command between a declaration and its definition, a doccomment-stemming entry renders differently than under default settings"))
         elif obs != imp:
             out.append((n, case, imp, obs, "DRIFT"))
         else:
